@@ -21,7 +21,8 @@ EXPLANATION = (
     "on room >= increment with room = bound[i] - t[i]) and convex step towards a target (t[i] + lambda*(target - t[i])). "
     "C03.b (ponding without bunds, inductive): every store to the ponding depth - initial conditions, season reset, "
     "infiltration, evaporation, transpiration - is the literal 0, or control dependent on a test of the bund switch, "
-    "or a decrease s - x control dependent on s > 0; hence without bunds the ponding stays 0. NOT decided: "
+    "or a decrease s - x control dependent on s > 0; hence without bunds the ponding stays 0. C03.c: a water-content cell "
+    "that is set to a hydraulic bound (saturation, adjusted field capacity) takes the bound of the same compartment. NOT decided: "
     "th >= th_dry and th <= th_s as numeric invariants, ponding <= bund height, Wr >= 0.")
 
 BOUND_ATTRS = {"th_s", "th_fc_Adj", "th_fc"}
@@ -305,7 +306,48 @@ def rule_b(chk, prog):
     chk.floor("C03.b", n, 12, "stores to the ponding depth")
 
 
+def rule_c(chk, prog):
+    """a water-content cell that is set to a hydraulic property takes the property of the same compartment"""
+    roles = step_roles(prog)
+    step = prog.func(STEP_FN)
+    n = 0
+    for key in sorted(roles.reached):
+        fi = prog.funcs[key]
+        if not fi.module.startswith("aquacrop.solution"):
+            continue
+        wl = _water_locals(prog, fi, step)
+        flow = flow_of(fi)
+        for a in walk_no_nested(fi.node):
+            if not (isinstance(a, ast.Assign) and isinstance(a.targets[0], ast.Subscript)):
+                continue
+            t = a.targets[0]
+            if not _is_water_array(fi, t.value, roles, wl):
+                continue
+            nid = flow.stmt_node.get(id(a))
+            if nid is None:
+                continue
+            v = a.value
+            lhs = v.left if isinstance(v, ast.BinOp) and isinstance(v.op, ast.Sub) else v
+            if isinstance(lhs, ast.BinOp):
+                continue
+            rb = _resolve_bound(fi, flow, lhs, nid)
+            if rb is None or rb[0] in ("computed", "several") or not rb[1]:
+                continue
+            n += 1
+            chk.fn(key)
+            construct = norm(a)[:100]
+            where = f"{fi.module}:{fi.qualname}"
+            if rb[1] == norm(t.slice):
+                chk.ok("C03.c", where, construct, f"bound {rb[0]}[{rb[1]}] of the same compartment")
+            else:
+                chk.violation("C03.c", where, construct,
+                              f"compartment [{norm(t.slice)}] is set to {rb[0]}[{rb[1]}], the property of another compartment: with layered "
+                              "soils it ends above its own saturation or below it", loc=fi.loc(a))
+    chk.floor("C03.c", n, 4, "stores of a hydraulic bound into a water-content cell")
+
+
 def run(chk, prog, tier):
     rule_a(chk, prog)
     rule_b(chk, prog)
+    rule_c(chk, prog)
     chk.assume("A-1")
